@@ -50,6 +50,8 @@ pub enum Step {
     /// the "user": the file now has exactly these bytes
     Edit { desc: String, bytes: Vec<u8> },
     Regen { force: bool, faults: Vec<Fault> },
+    /// the "user" edits the grammar file: it now has exactly these bytes
+    Grammar { desc: String, bytes: Vec<u8> },
 }
 
 #[derive(Clone)]
@@ -70,6 +72,7 @@ impl Case {
                 },
                 Step::Regen { force, faults } => json!({"op": "regen", "force": force,
                     "faults": faults.iter().map(|f| json!({"event": f.event, "kind": f.kind, "arg": f.arg})).collect::<Vec<_>>()}),
+                Step::Grammar { desc, bytes } => json!({"op": "grammar", "desc": desc, "text": String::from_utf8_lossy(bytes)}),
             }).collect::<Vec<_>>()})
     }
     pub fn from_json(v: &Value) -> Option<Case> {
@@ -89,6 +92,7 @@ impl Case {
                         .map(|f| Some(Fault { event: f.get("event")?.as_u64()?, kind: f.get("kind")?.as_u64()? as u8, arg: f.get("arg")?.as_i64()? as i32 }))
                         .collect::<Option<Vec<_>>>()?,
                 }),
+                "grammar" => steps.push(Step::Grammar { desc: s.get("desc").and_then(|d| d.as_str()).unwrap_or("").into(), bytes: s.get("text")?.as_str()?.as_bytes().to_vec() }),
                 _ => return None,
             }
         }
@@ -138,6 +142,7 @@ fn bump(m: &mut BTreeMap<String, u64>, k: &str) {
     *m.entry(k.to_string()).or_insert(0) += 1;
 }
 
+#[derive(Clone)]
 pub struct Model {
     /// items of one forced generation into an empty directory
     pub u: Vec<syn::Item>,
@@ -159,6 +164,116 @@ pub fn model(env: &Env, g: &GrammarSrc, spec: &Spec) -> Option<Model> {
     let golden = o.file(&actions_name(g))?;
     let f = syn::parse_file(std::str::from_utf8(&golden).ok()?).ok()?;
     Some(Model { u: f.items, golden })
+}
+
+thread_local! {
+    /// models of evolved grammars of the history being generated/replayed
+    /// (cleared per history, so hits do not depend on the worker count)
+    static MODEL_CACHE: std::cell::RefCell<BTreeMap<u64, Option<Model>>> = const { std::cell::RefCell::new(BTreeMap::new()) };
+}
+
+fn model_cached(env: &Env, g: &GrammarSrc, spec: &Spec, st: &mut Stats) -> Option<Model> {
+    let key = fnv64(&[&g.bytes[..], spec.label().as_bytes()].concat());
+    if let Some(m) = MODEL_CACHE.with(|c| c.borrow().get(&key).cloned()) {
+        return m;
+    }
+    st.compiles += 1;
+    let m = model(env, g, spec);
+    MODEL_CACHE.with(|c| c.borrow_mut().insert(key, m.clone()));
+    m
+}
+
+/// The user extends the grammar: a new rule `VerifNew<k>` led by a fresh
+/// keyword, reachable through a new alternative of the start rule.  Text
+/// level, no grammar parser of our own: the first top-level `;` ends the
+/// start rule; the `terminals` line starts the terminal section.
+pub fn evolve_grammar(rng: &mut Rng, text: &str, k: usize) -> Option<String> {
+    let tpos = {
+        let mut off = 0usize;
+        let mut found = None;
+        for line in text.split_inclusive('\n') {
+            if line.trim() == "terminals" {
+                found = Some(off);
+                break;
+            }
+            off += line.len();
+        }
+        found?
+    };
+    // terminal names
+    let mut terms: Vec<String> = vec![];
+    for line in text[tpos..].lines().skip(1) {
+        let l = line.trim_start();
+        let name: String = l.chars().take_while(|c| c.is_ascii_alphanumeric() || *c == '_').collect();
+        if !name.is_empty() && name.chars().next().map(|c| c.is_ascii_alphabetic()).unwrap_or(false) && l[name.len()..].trim_start().starts_with(':') {
+            terms.push(name);
+        }
+    }
+    if terms.is_empty() {
+        return None;
+    }
+    // end of the first rule
+    let b = text.as_bytes();
+    let mut i = 0usize;
+    let mut end = None;
+    while i < tpos {
+        match b[i] {
+            b'/' if i + 1 < tpos && b[i + 1] == b'/' => {
+                while i < tpos && b[i] != b'\n' {
+                    i += 1;
+                }
+            }
+            b'/' if i + 1 < tpos && b[i + 1] == b'*' => {
+                let mut depth = 0usize;
+                while i + 1 < tpos {
+                    if b[i] == b'/' && b[i + 1] == b'*' {
+                        depth += 1;
+                        i += 2;
+                    } else if b[i] == b'*' && b[i + 1] == b'/' {
+                        depth -= 1;
+                        i += 2;
+                        if depth == 0 {
+                            break;
+                        }
+                    } else {
+                        i += 1;
+                    }
+                }
+            }
+            q @ (b'\'' | b'"') => {
+                i += 1;
+                while i < tpos && b[i] != q {
+                    if b[i] == b'\\' {
+                        i += 1;
+                    }
+                    i += 1;
+                }
+                i += 1;
+            }
+            b';' => {
+                end = Some(i);
+                break;
+            }
+            _ => i += 1,
+        }
+    }
+    let end = end?;
+    let t1 = rng.pick(&terms).clone();
+    let t2 = rng.pick(&terms).clone();
+    let mut out = String::new();
+    out.push_str(&text[..end]);
+    out.push_str(&format!(" | VerifNew{k}"));
+    out.push_str(&text[end..tpos]);
+    if !out.ends_with('\n') {
+        out.push('\n');
+    }
+    out.push_str(&format!("VerifNew{k}: VerifKw{k} {t1} | VerifKw{k} VerifKw{k} {t2};\n"));
+    out.push_str(&text[tpos..]);
+    if !out.ends_with('\n') {
+        out.push('\n');
+    }
+    out.push_str(&format!("VerifKw{k}: 'verifkw{k}';\n"));
+    Some(out)
 }
 
 const HEADER_TYPES: [&str; 3] = ["Input", "Ctx", "Token"];
@@ -559,22 +674,40 @@ fn tolerated_key(f: &Finding) -> bool {
 }
 
 /// Executes the explicit steps of a case, checking every regeneration.
-pub fn run_case(env: &Env, case: &Case, m: &Model, st: &mut Stats) -> RunResult {
+pub fn run_case(env: &Env, case: &Case, m0: &Model, st: &mut Stats) -> RunResult {
     let aname = actions_name(&case.grammar);
+    // grammar evolution: the current grammar text and its model
+    let mut gcur = case.grammar.clone();
+    let mut evolved: Option<Model> = None;
+    let mut model_ok = true;
     let mut cur: Option<Vec<u8>> = None;
     // index of the last regeneration that returned Ok with no failing fault
     let mut last_clean_regen: Option<usize> = None;
     let mut tolerated: Vec<(usize, Finding)> = vec![];
     let mut last_events: Vec<u32> = vec![];
     for (si, step) in case.steps.iter().enumerate() {
+        if let Step::Grammar { bytes, .. } = step {
+            gcur.bytes = bytes.clone();
+            if *bytes == case.grammar.bytes {
+                evolved = None;
+                model_ok = true;
+            } else {
+                evolved = model_cached(env, &gcur, &case.spec, st);
+                model_ok = evolved.is_some();
+            }
+            last_clean_regen = None;
+            continue;
+        }
+        let m: &Model = evolved.as_ref().unwrap_or(m0);
         match step {
+            Step::Grammar { .. } => {}
             Step::Edit { bytes, .. } => cur = Some(bytes.clone()),
             Step::Regen { force, faults } => {
                 let mut spec = case.spec.clone();
                 spec.force = *force;
                 let mut world = World::reference();
                 world.faults = faults.clone();
-                let o = sim::run_world_with(env, &case.grammar, &spec, &world, cur.as_deref());
+                let o = sim::run_world_with(env, &gcur, &spec, &world, cur.as_deref());
                 st.compiles += 1;
                 if o.stat.eintr > 0 {
                     bump(&mut st.faults_fired, "eintr");
@@ -625,7 +758,7 @@ pub fn run_case(env: &Env, case: &Case, m: &Model, st: &mut Stats) -> RunResult 
                             // first: counted, never alarmed -- C18 does not
                             // quantify over crash points).
                             if failing_fired {
-                                if let (Some(p), Some(a)) = (&cur, &after) {
+                                if let (true, Some(p), Some(a)) = (model_ok, &cur, &after) {
                                     if check_regen(m, p, a, &mut Stats::default()).is_none() {
                                         cur = after;
                                         continue;
@@ -642,6 +775,13 @@ pub fn run_case(env: &Env, case: &Case, m: &Model, st: &mut Stats) -> RunResult 
                                 final_bytes: after.unwrap_or_default(),
                             };
                         }
+                    }
+                    Class::Ok if !model_ok => {
+                        // the reference generation of the evolved grammar
+                        // failed but this one succeeded: no model to check
+                        // against (never observed; counted, not alarmed)
+                        bump(&mut st.ops, "grammar-model-missing");
+                        return RunResult { last_events: vec![], tolerated: std::mem::take(&mut tolerated), finding: None, final_bytes: after.or(cur).unwrap_or_default() };
                     }
                     Class::Ok => {
                         let after = match after {
@@ -739,6 +879,7 @@ pub fn gen_and_run(env: &Env, ctx: &Ctx, stream: u64, idx: u64, with_faults: boo
     };
     let spec = c18_spec(&mut rng);
     st.compiles += 1;
+    MODEL_CACHE.with(|c| c.borrow_mut().clear());
     let m = match model(env, &grammar, &spec) {
         Some(m) => m,
         None => {
@@ -756,8 +897,60 @@ pub fn gen_and_run(env: &Env, ctx: &Ctx, stream: u64, idx: u64, with_faults: boo
     let n_ops = rng.range(1, 8);
     let mut edited = false;
     let mut hist_hash = vec![];
+    // grammar evolution: model of the grammar text currently in force
+    let mut mcur: Model = m.clone();
+    let mut gcur: Vec<u8> = case.grammar.bytes.clone();
+    let mut evolutions = 0usize;
     for n in 0..n_ops {
-        match rng.below(10) {
+        match rng.below(12) {
+            10 | 11 => {
+                // the user changes the grammar and regenerates
+                let original = gcur == case.grammar.bytes;
+                let (desc, bytes) = if !original && rng.chance(1, 2) {
+                    ("revert the grammar to its original text".to_string(), case.grammar.bytes.clone())
+                } else if evolutions < 2 {
+                    let text = match std::str::from_utf8(&gcur) {
+                        Ok(t) => t.to_string(),
+                        Err(_) => continue,
+                    };
+                    match evolve_grammar(&mut rng, &text, evolutions + 1) {
+                        Some(t) => (format!("add rule VerifNew{} to the grammar", evolutions + 1), t.into_bytes()),
+                        None => continue,
+                    }
+                } else {
+                    continue;
+                };
+                let g2 = GrammarSrc { id: case.grammar.id.clone(), stem: case.grammar.stem.clone(), bytes: bytes.clone() };
+                let m2 = if bytes == case.grammar.bytes { Some(m.clone()) } else { model_cached(env, &g2, &case.spec, st) };
+                match m2 {
+                    Some(m2) => {
+                        if bytes == case.grammar.bytes {
+                            bump(&mut st.ops, "grammar-revert");
+                        } else {
+                            bump(&mut st.ops, "grammar-evolve");
+                            evolutions += 1;
+                        }
+                        mcur = m2;
+                    }
+                    None => {
+                        // the extended grammar does not compile under these
+                        // settings (conflicts): the regeneration must fail and
+                        // touch nothing (K7), then the user takes the edit back
+                        bump(&mut st.ops, "grammar-evolve-not-compilable");
+                        hist_hash.extend_from_slice(desc.as_bytes());
+                        case.steps.push(Step::Grammar { desc, bytes });
+                        case.steps.push(Step::Regen { force: false, faults: vec![] });
+                        case.steps.push(Step::Grammar { desc: "take the grammar edit back".into(), bytes: gcur.clone() });
+                        edited = true;
+                        continue;
+                    }
+                }
+                gcur = bytes.clone();
+                edited = true;
+                hist_hash.extend_from_slice(desc.as_bytes());
+                case.steps.push(Step::Grammar { desc, bytes });
+                case.steps.push(Step::Regen { force: false, faults: vec![] });
+            }
             0 | 1 => {
                 let force = rng.chance(1, 6);
                 let mut faults = vec![];
@@ -796,7 +989,7 @@ pub fn gen_and_run(env: &Env, ctx: &Ctx, stream: u64, idx: u64, with_faults: boo
                 case.steps.push(Step::Edit { desc: "remove the unparsable text".into(), bytes: cur.clone() });
                 continue;
             }
-            _ => match edit(&mut rng, &cur, &m, n, &snapshots, st) {
+            _ => match edit(&mut rng, &cur, &mcur, n, &snapshots, st) {
                 Some((kind, desc, bytes)) => {
                     bump(&mut st.ops, kind);
                     edited = true;
@@ -832,7 +1025,7 @@ pub fn gen_and_run(env: &Env, ctx: &Ctx, stream: u64, idx: u64, with_faults: boo
     }
     if st.samples.len() < 3 {
         st.samples.push(json!({"grammar": case.grammar.id, "settings": case.spec.label(),
-            "history": case.steps.iter().map(|s| match s { Step::Edit { desc, .. } => format!("edit: {desc}"), Step::Regen { force, faults } => format!("regen force={force} faults={}", faults.len()) }).collect::<Vec<_>>()}));
+            "history": case.steps.iter().map(|s| match s { Step::Edit { desc, .. } => format!("edit: {desc}"), Step::Regen { force, faults } => format!("regen force={force} faults={}", faults.len()), Step::Grammar { desc, .. } => format!("grammar: {desc}") }).collect::<Vec<_>>()}));
     }
     let first = match r.finding {
         Some(x) => Some(x),
